@@ -602,7 +602,11 @@ class ShortTimeFourierTransformFrameComputer(LinearFilterBankFrameComputer):
         num_frames = max(0, (len(signal) + frame_shift // 2) // frame_shift)
         total_len = (num_frames - 1) * frame_shift - pad_left + frame_length
         pad_right = max(0, total_len - len(signal))
-        if pad_left or pad_right:
+        if pad_left < 0:
+            # kaldi_shift with a frame shift beyond the frame length: the first frame
+            # starts inside the signal
+            signal = np.pad(signal, (0, pad_right), "symmetric")[-pad_left:]
+        elif pad_left or pad_right:
             signal = np.pad(signal, (pad_left, pad_right), "symmetric")
         coeffs = np.zeros((num_frames, self.num_coeffs), dtype=signal.dtype)
         for frame_idx in range(num_frames):
